@@ -41,6 +41,24 @@ func vfExecMore14(f []string, op string) (string, bool) {
 		SetLimit(uint32(l1))
 		m, err := DetectReader(&vfFlipReader{data: data, newLim: uint32(l2)})
 		return fmt.Sprintf("%s => %s %s %s %s", op, vfErrClass(err), vfRes(m), a, b), true
+	case "matchflip": // matchflip lim newlim hex : the limit changes while the tree is being walked (inside Detect)
+		l1, _ := strconv.ParseUint(f[1], 10, 32)
+		l2, _ := strconv.ParseUint(f[2], 10, 32)
+		data := vfUnhex(f[3])
+		if vfBuiltin == nil {
+			vfBuiltin = vfSnapshot()
+		}
+		vfBuiltin.restore()
+		defer vfBuiltin.restore()
+		SetLimit(uint32(l1))
+		a := vfRes(Detect(data))
+		SetLimit(uint32(l2))
+		b := vfRes(Detect(data))
+		SetLimit(uint32(l1))
+		// a root-level extension that never matches; it is consulted first and moves the limit
+		Extend(func([]byte, uint32) bool { SetLimit(uint32(l2)); return false }, "application/x-verif-flip", ".vflip")
+		m := Detect(data)
+		return fmt.Sprintf("%s => nil %s %s %s", op, vfRes(m), a, b), true
 	}
 	return vfExecMore15(f, op)
 }
@@ -75,7 +93,24 @@ func (g *vfGen) genLimFlip() {
 					continue
 				}
 				g.emit(vfOp("limflip", l1, l2, d))
+				g.emit(vfOp("matchflip", l1, l2, d))
 			}
+		}
+	}
+	// documents longer than the first limit, the limit raised beyond their length (and back) during the walk
+	long := []byte("{\"items\":[")
+	for i := 0; i < 700; i++ {
+		long = append(long, []byte(fmt.Sprintf("{\"id\":%d},", i))...)
+	}
+	long = append(long, []byte("{\"id\":0}]}")...)
+	csvLong := []byte{}
+	for i := 0; i < 500; i++ {
+		csvLong = append(csvLong, []byte(fmt.Sprintf("%d,name-%d,value\n", i, i))...)
+	}
+	for _, d := range [][]byte{long, csvLong, append([]byte("\n  "), long...)} {
+		for _, p := range [][2]int{{3072, len(d) + 100}, {3072, 0}, {100, 3072}, {len(d) + 100, 3072}, {0, 3072}, {1000, 1001}, {3072, 3071}} {
+			g.emit(vfOp("limflip", p[0], p[1], d))
+			g.emit(vfOp("matchflip", p[0], p[1], d))
 		}
 	}
 }
